@@ -106,9 +106,15 @@ def check_sheet(text, given, fields, children, acc, case, what):
                     if w < len(cell):
                         V.append(('column-narrower-than-cell', f'column {f} width {w} < cell {cell!r} of task {t.id}'))
                         break
-                    if got != ' ' + cell.ljust(w) + ' ':
+                    if f == 'name':
+                        # indentation is measured from where the header token starts (alignment-agnostic)
+                        lead = hdr.find('NAME', offs[j]) - offs[j]
+                        ok_cell = got.rstrip() == (' ' * lead + cell).rstrip()
+                    else:
+                        ok_cell = got.strip() == cell.strip()
+                    if not ok_cell:
                         kind = 'name-indent' if f == 'name' else 'link-cell' if f in ('predecessors', 'successors', 'parent') else 'cell'
-                        V.append((kind, f'task {t.id} column {f}: {got!r}, expected {(" " + cell.ljust(w) + " ")!r}'))
+                        V.append((kind, f'task {t.id} column {f}: {got!r}, expected cell {cell!r}'))
                         break
                 else:
                     continue
